@@ -6,9 +6,13 @@ use super::{parse_sim, HGuard, SimCtx};
 use crate::rng::fnv;
 use crate::world::{Ev, NOCONN};
 use dropshot::{
-    endpoint, ApiDescription, ClientErrorStatusCode, ErrorStatusCode, HttpError,
-    HttpResponseError, HttpResponseHeaders, HttpResponseOk, Query, RequestContext,
-    TypedBody,
+    endpoint, http_response_found, http_response_see_other,
+    http_response_temporary_redirect, ApiDescription, ClientErrorStatusCode,
+    ErrorStatusCode, FreeformBody, HttpError, HttpResponseAccepted,
+    HttpResponseCreated, HttpResponseDeleted, HttpResponseError, HttpResponseFound,
+    HttpResponseHeaders, HttpResponseOk, HttpResponseSeeOther,
+    HttpResponseTemporaryRedirect, HttpResponseUpdatedNoContent, Query,
+    RequestContext, TypedBody,
 };
 use schemars::JsonSchema;
 use serde::{Deserialize, Serialize};
@@ -272,6 +276,60 @@ async fn err_unserializable(
     Err(Unser { m: q.into_inner().m, status: None })
 }
 
+// Every other success type the framework offers: each response must carry
+// the request id like any other.
+macro_rules! plain_success {
+    ($name:ident, $m:ident, $path:literal, $op:literal, $ty:ty, $val:expr) => {
+        #[endpoint { method = $m, path = $path }]
+        async fn $name(rqctx: RequestContext<SimCtx>) -> Result<$ty, HttpError> {
+            let h = parse_sim(rqctx.request.headers());
+            let g = HGuard::enter(&rqctx.context().world, h.nonce, $op);
+            note_id(&rqctx, h.nonce);
+            g.finish();
+            Ok($val)
+        }
+    };
+}
+plain_success!(ok_created, POST, "/created", 40, HttpResponseCreated<Refused>, HttpResponseCreated(Refused { refused: false }));
+plain_success!(ok_accepted, POST, "/accepted", 41, HttpResponseAccepted<Refused>, HttpResponseAccepted(Refused { refused: false }));
+plain_success!(ok_deleted, DELETE, "/deleted", 42, HttpResponseDeleted, HttpResponseDeleted());
+plain_success!(ok_updated, PUT, "/updated", 43, HttpResponseUpdatedNoContent, HttpResponseUpdatedNoContent());
+plain_success!(
+    ok_freeform,
+    GET,
+    "/freeform",
+    44,
+    HttpResponseOk<FreeformBody>,
+    HttpResponseOk(FreeformBody(dropshot::Body::from("free form".to_string())))
+);
+
+#[derive(Deserialize, JsonSchema)]
+pub struct RedirQuery {
+    /// where to; when absent the handler offers a location that cannot be a
+    /// header value (the framework must answer 500 without echoing it)
+    to: Option<String>,
+}
+
+macro_rules! redirect {
+    ($name:ident, $path:literal, $op:literal, $ty:ty, $f:ident) => {
+        #[endpoint { method = GET, path = $path }]
+        async fn $name(rqctx: RequestContext<SimCtx>, q: Query<RedirQuery>) -> Result<$ty, HttpError> {
+            let h = parse_sim(rqctx.request.headers());
+            let g = HGuard::enter(&rqctx.context().world, h.nonce, $op);
+            note_id(&rqctx, h.nonce);
+            let loc = match q.into_inner().to {
+                Some(t) => t,
+                None => format!("bad\nlocation SECRET-{}-redirect", h.nonce),
+            };
+            g.finish();
+            $f(loc)
+        }
+    };
+}
+redirect!(ok_see_other, "/see_other", 45, HttpResponseSeeOther, http_response_see_other);
+redirect!(ok_found, "/found", 46, HttpResponseFound, http_response_found);
+redirect!(ok_temp, "/temp", 47, HttpResponseTemporaryRedirect, http_response_temporary_redirect);
+
 macro_rules! multi {
     ($name:ident, $m:ident) => {
         #[endpoint { method = $m, path = "/multi" }]
@@ -295,6 +353,14 @@ pub fn register(api: &mut ApiDescription<SimCtx>) {
     api.register(ok_headers).unwrap();
     api.register(ok_own_id).unwrap();
     api.register(ok_unserializable).unwrap();
+    api.register(ok_created).unwrap();
+    api.register(ok_accepted).unwrap();
+    api.register(ok_deleted).unwrap();
+    api.register(ok_updated).unwrap();
+    api.register(ok_freeform).unwrap();
+    api.register(ok_see_other).unwrap();
+    api.register(ok_found).unwrap();
+    api.register(ok_temp).unwrap();
     api.register(err_unserializable).unwrap();
     api.register(multi_get).unwrap();
     api.register(multi_put).unwrap();
